@@ -2111,7 +2111,11 @@ impl<'de, 'e> de::Deserializer<'de> for YamlDeserializer<'de, 'e> {
                 // Get location from replay events for error reporting.
                 let location = replay.reference_location();
                 // A key reached through an alias or a merge is *used* at that alias / merge entry.
-                replay.ref_override = Some(key_reference_location);
+                // A key written in place keeps per-node locations (no override), so that nodes
+                // inside a complex key still refer to themselves.
+                if key_reference_location != location {
+                    replay.ref_override = Some(key_reference_location);
+                }
 
                 let de = YamlDeserializer::<'de2, '_> {
                     ev: &mut replay,
